@@ -206,21 +206,81 @@ fn image(d: &DirSt, variant: &str) -> Snap {
         .collect()
 }
 
+/// how the writes of a trace are cut
+#[derive(Clone, Debug)]
+struct CutPolicy {
+    /// a write of at most `coarse_above` bytes is cut every `gran` bytes (+ its first and last bytes)
+    gran: usize,
+    /// a longer write is cut at boundaries only (`coarse_positions`)
+    coarse_above: usize,
+    /// size constants whose multiples are the boundary positions
+    marks: Vec<usize>,
+}
+
+/// writes above this length are cut coarsely under every policy
+const COARSE_ALWAYS_ABOVE: usize = 256 * 1024;
+/// from this length on a coarsely cut write gets only a handful of positions (every crash state of
+/// such a write costs a copy, a materialisation and a reload of the whole value)
+const HUGE_WRITE: usize = 1024 * 1024;
+const DEFAULT_MARKS: [usize; 4] = [4096, 8192, 65536, 1024 * 1024];
+
+impl CutPolicy {
+    fn fine(gran: usize) -> Self {
+        CutPolicy { gran, coarse_above: COARSE_ALWAYS_ABOVE, marks: DEFAULT_MARKS.to_vec() }
+    }
+    fn with_gran(&self, gran: usize) -> Self {
+        CutPolicy { gran, ..self.clone() }
+    }
+}
+
+/// boundary cut positions inside a write of `n` bytes: first and last bytes, the middle, and the
+/// multiples of the size constants (the first three and the last one below `n`, each with its two
+/// neighbours). A huge write: first byte, one page, the middle, the last multiple of the largest
+/// constant below `n`, the last byte.
+fn coarse_positions(n: usize, marks: &[usize]) -> Vec<usize> {
+    let mut ks: Vec<usize> = vec![1, n / 2, n.saturating_sub(1)];
+    if n >= HUGE_WRITE {
+        ks.push(4096);
+        if let Some(c) = marks.iter().copied().filter(|c| *c >= 512 && *c < n).max() {
+            ks.push((n - 1) / c * c);
+        }
+    } else {
+        ks.extend([2, 3, 4, 8, n.saturating_sub(2), n.saturating_sub(4)]);
+        for &c in marks.iter().filter(|c| **c >= 512 && **c < n) {
+            let last = (n - 1) / c;
+            for j in [1, 2, 3, last] {
+                if j >= 1 && j <= last {
+                    ks.extend([j * c - 1, j * c, j * c + 1]);
+                }
+            }
+        }
+    }
+    ks.sort_unstable();
+    ks.dedup();
+    ks.retain(|k| *k > 0 && *k < n);
+    ks
+}
+
 /// every cut: (i, 0) for i in 0..=n, and (i, k) inside write i.
-fn cuts(t: &[FsOp], gran: usize) -> Vec<(usize, usize)> {
+fn cuts(t: &[FsOp], pol: &CutPolicy) -> Vec<(usize, usize)> {
     let mut v = vec![];
     for (i, o) in t.iter().enumerate() {
         v.push((i, 0));
         if let FsOp::Write { data, .. } = o {
             let n = data.len();
-            let mut ks: Vec<usize> = vec![1, 2, 3, 4, 5, 6, 7, 8, n.saturating_sub(1), n.saturating_sub(2), n.saturating_sub(4)];
-            let mut k = gran;
-            while k < n {
-                ks.push(k);
-                k += gran;
-            }
-            ks.sort_unstable();
-            ks.dedup();
+            let ks = if n > pol.coarse_above.min(COARSE_ALWAYS_ABOVE) {
+                coarse_positions(n, &pol.marks)
+            } else {
+                let mut ks: Vec<usize> = vec![1, 2, 3, 4, 5, 6, 7, 8, n.saturating_sub(1), n.saturating_sub(2), n.saturating_sub(4)];
+                let mut k = pol.gran.max(1);
+                while k < n {
+                    ks.push(k);
+                    k += pol.gran.max(1);
+                }
+                ks.sort_unstable();
+                ks.dedup();
+                ks
+            };
             for k in ks {
                 if k > 0 && k < n {
                     v.push((i, k));
@@ -295,7 +355,15 @@ fn take_hex_string(s: &str, close: char) -> Option<(Vec<u8>, &str)> {
             return Some((out, &s[i + 1..]));
         }
         if b[i] == b'\\' && i + 3 < b.len() && b[i + 1] == b'x' {
-            out.push(u8::from_str_radix(&s[i + 2..i + 4], 16).ok()?);
+            let nib = |c: u8| -> Option<u8> {
+                match c {
+                    b'0'..=b'9' => Some(c - b'0'),
+                    b'a'..=b'f' => Some(c - b'a' + 10),
+                    b'A'..=b'F' => Some(c - b'A' + 10),
+                    _ => None,
+                }
+            };
+            out.push(nib(b[i + 2])? << 4 | nib(b[i + 3])?);
             i += 4;
         } else {
             out.push(b[i]);
@@ -617,8 +685,11 @@ struct Tracer {
 static TRACER: std::sync::OnceLock<Tracer> = std::sync::OnceLock::new();
 static XCHECK_RUNS: std::sync::atomic::AtomicU64 = std::sync::atomic::AtomicU64::new(0);
 static XCHECK_DIFFS: std::sync::Mutex<Vec<String>> = std::sync::Mutex::new(Vec::new());
+static XCHECK_SKIPPED: std::sync::atomic::AtomicU64 = std::sync::atomic::AtomicU64::new(0);
+/// disk-cache values from this length on are traced by the recorder alone
+const XCHECK_MAX_VALUE: usize = 4 * 1024 * 1024;
 
-const STRACE_ARGS: [&str; 7] = ["-f", "-y", "-xx", "-s", "4000000", "-e", "trace=open,openat,creat,write,pwrite64,writev,ftruncate,fsync,fdatasync,rename,renameat,renameat2,unlink,unlinkat"];
+const STRACE_ARGS: [&str; 7] = ["-f", "-y", "-xx", "-s", "40000000", "-e", "trace=open,openat,creat,write,pwrite64,writev,ftruncate,fsync,fdatasync,rename,renameat,renameat2,unlink,unlinkat"];
 const PROBE_TRACE: &str = "creat p;write p 3 e71fa2190541574b;fsync p;rename p q;unlink q";
 
 /// run `exe --worker <wargs>` under the given tracers; returns (stdout, stderr, per-tracer events)
@@ -806,14 +877,35 @@ fn jrn_state(b: Option<&ExtractorCompactorBackup>) -> String {
     }
 }
 
-fn dc_value(spec: &str) -> Vec<u8> {
-    // <len>x<seed>
+/// a disk-cache value from its compact description:
+///   `<len>x<seed>`           the first `len` bytes of the stream Rng(seed ^ 0xC06)
+///   `<len>t<seed>m<mlen>`    the LAST `len` bytes of the first `mlen` bytes of that stream (the values
+///                            of one size-class family are tails of one master, so the model side
+///                            builds the master list once and shares it)
+fn dc_value_spec(spec: &str) -> (usize, u64, usize) {
+    if let Some((l, rest)) = spec.split_once('t') {
+        let (sd, m) = rest.split_once('m').unwrap_or((rest, l));
+        let n: usize = l.parse().unwrap_or(0);
+        return (n, sd.parse().unwrap_or(0), m.parse::<usize>().unwrap_or(n).max(n));
+    }
     let (l, sd) = spec.split_once('x').unwrap_or((spec, "0"));
     let n: usize = l.parse().unwrap_or(0);
-    let sd: u64 = sd.parse().unwrap_or(0);
-    let mut r = Rng::new(sd ^ 0xC06);
-    r.bytes(n)
+    (n, sd.parse().unwrap_or(0), n)
 }
+
+fn dc_value(spec: &str) -> Vec<u8> {
+    let (n, sd, m) = dc_value_spec(spec);
+    let mut r = Rng::new(sd ^ 0xC06);
+    let mut v = r.bytes(m);
+    if m > n {
+        v.drain(..m - n);
+    }
+    v
+}
+
+/// values at least this long go to the model as `data=@<len>:<seed>:<mlen>` (the model side
+/// generates the same stream) instead of as hex: a 16 MiB value would be a 32 MB request line
+const DC_COMPACT_FROM: usize = 128 * 1024;
 
 /// RLIMIT_FSIZE with a SIGXFSZ handler that lifts the limit again after a number of signals, so a
 /// save can be made to fail in its first attempt(s) and succeed in a later one. (libc symbols
@@ -869,6 +961,36 @@ mod fsize_limit {
     }
 }
 
+/// the i-th key of a `bulk` token: distinct for distinct i, XOR fold of the first 9 bytes constant
+/// (same bucket as `gen_key16(_, true)`)
+fn bulk_key16(r: &mut Rng, i: u64) -> [u8; 16] {
+    let mut k = [0u8; 16];
+    for b in &mut k {
+        *b = r.byte();
+    }
+    k[0] = i as u8;
+    k[2] = (i >> 8) as u8;
+    k[4] = (i >> 16) as u8 | 0x80; // never all-zero
+    for j in [0usize, 2, 4, 6] {
+        k[j + 1] = k[j];
+    }
+    k[8] = 0xC0;
+    k
+}
+
+/// the i-th key of a `fill` token: distinct for distinct i, all 16 bytes XOR to `x`
+fn fill_key16(r: &mut Rng, i: u64, x: u8) -> [u8; 16] {
+    let mut k = [0u8; 16];
+    for b in &mut k {
+        *b = r.byte();
+    }
+    k[0] = i as u8;
+    k[1] = (i >> 8) as u8;
+    k[2] = (i >> 16) as u8 | 0x80;
+    k[15] = k[..15].iter().fold(x, |a, b| a ^ b);
+    k
+}
+
 fn worker(a: &[String]) {
     // a = [routine, dir, script, extra…]
     let routine = a[0].as_str();
@@ -903,6 +1025,14 @@ fn worker(a: &[String]) {
                     }
                     ["rm", k] => {
                         let _ = m.remove_entry(&EncodingKey::from_bytes(key16(k)));
+                    }
+                    ["bulk", sd, n] => {
+                        // n distinct keys of one bucket (size-class histories: a sorted section of a chosen length)
+                        let mut r = Rng::new(sd.parse::<u64>().unwrap_or(0) ^ 0xB01C);
+                        for i in 0..n.parse::<u64>().unwrap_or(0) {
+                            let k = bulk_key16(&mut r, i);
+                            let _ = m.add_entry(&EncodingKey::from_bytes(k), r.below(1024) as u16, r.below(1 << 30) as u32, r.range(1, 1 << 20) as u32);
+                        }
                     }
                     ["flush"] => {
                         let _ = m.flush_all_updates();
@@ -968,6 +1098,16 @@ fn worker(a: &[String]) {
                     ["span", k, o, l] => {
                         db.mark_span_non_resident(&key16(k), o.parse().unwrap_or(0), l.parse().unwrap_or(0));
                         dirty = true;
+                    }
+                    ["fill", sd, n, x] => {
+                        // n distinct keys whose bytes XOR to x: all in one bucket (size-class histories:
+                        // a chosen number of pages)
+                        let x = u8::from_str_radix(x, 16).unwrap_or(0);
+                        let mut r = Rng::new(sd.parse::<u64>().unwrap_or(0) ^ 0xF111);
+                        for i in 0..n.parse::<u64>().unwrap_or(0) {
+                            db.mark_resident(&fill_key16(&mut r, i, x));
+                            dirty = true;
+                        }
                     }
                     _ => {}
                 }
@@ -1159,7 +1299,15 @@ fn run_worker(ctx: &Ctx, dir: &Path, script: &str) -> Result<StepOut, TraceErr> 
         format!("sub={}", ctx.sub),
         format!("uni={}", if ctx.routine == "res" { ctx.universe.join("/") } else { String::new() }),
     ];
-    let (stdout, stderr, shim_evs, strace_evs) = run_traced(tracer.shim.as_deref(), tracer.strace, &wargs).map_err(TraceErr::Infra)?;
+    // strace sees the recorder's own log writes as well: for a huge value that is 200 MB of strace
+    // text per save. The cross-check (a self-test of the recorder, not part of the property) is left
+    // out for such a save when the recorder is available.
+    let huge = ctx.routine == "dc" && script.split(':').nth(2).is_some_and(|v| dc_value_spec(v).0 >= XCHECK_MAX_VALUE);
+    let with_strace = tracer.strace && !(huge && tracer.shim.is_some());
+    if tracer.strace && !with_strace {
+        XCHECK_SKIPPED.fetch_add(1, std::sync::atomic::Ordering::Relaxed);
+    }
+    let (stdout, stderr, shim_evs, strace_evs) = run_traced(tracer.shim.as_deref(), with_strace, &wargs).map_err(TraceErr::Infra)?;
     let mut info = BTreeMap::new();
     for l in stdout.lines() {
         if let Some((k, v)) = l.split_once(' ') {
@@ -1244,8 +1392,13 @@ fn model_params(ctx: &Ctx, script: &str, so: &StepOut) -> String {
         "dc" => {
             let f: Vec<&str> = script.split(':').collect();
             let key = f.get(1).copied().unwrap_or("-");
-            let val = dc_value(f.get(2).copied().unwrap_or("0x0"));
-            format!("dc sub={} key={key} data={}", ctx.sub, hexs(&val))
+            let spec = f.get(2).copied().unwrap_or("0x0");
+            let (n, sd, m) = dc_value_spec(spec);
+            if n >= DC_COMPACT_FROM {
+                format!("dc sub={} key={key} data=@{n}:{}:{m}", ctx.sub, sd ^ 0xC06)
+            } else {
+                format!("dc sub={} key={key} data={}", ctx.sub, hexs(&dc_value(spec)))
+            }
         }
         "jrn" => {
             let f: Vec<&str> = script.split(':').collect();
@@ -1371,14 +1524,14 @@ struct Hist {
     dir: tempfile::TempDir,
     replay: Vec<String>,
     last: Option<StepOut>,
-    gran: usize,
+    cut: CutPolicy,
     thorough: bool,
     dead: bool,
 }
 
 impl Hist {
     fn begin(&mut self, s: &mut Session) {
-        let line = format!(
+        let mut line = format!(
             "begin {} cap={} name={} sub={} uni={} jver=1 jmax={}",
             self.ctx.routine,
             self.ctx.cap,
@@ -1387,6 +1540,10 @@ impl Hist {
             if self.ctx.universe.is_empty() { "-".to_string() } else { self.ctx.universe.join("/") },
             cascette_client_storage::storage::segment::MAX_SEGMENTS
         );
+        if self.cut.coarse_above != COARSE_ALWAYS_ABOVE || self.cut.marks != DEFAULT_MARKS {
+            // a size-class history: the cut policy is part of the case (a replay enumerates the same crash states)
+            line.push_str(&format!(" coarse={} marks={}", self.cut.coarse_above, self.cut.marks.iter().map(|m| m.to_string()).collect::<Vec<_>>().join(",")));
+        }
         s.line(&line, "ok");
         self.replay.push(line);
     }
@@ -1396,6 +1553,8 @@ impl Hist {
         if self.dead {
             return;
         }
+        let timing = std::env::var_os("C06_TIMING").is_some();
+        let t_step = std::time::Instant::now();
         let so = match run_worker(&self.ctx, self.dir.path(), script) {
             Ok(so) => so,
             Err(TraceErr::Infra(e)) => infra_exit(&format!("{} `{script}`: {e}", self.ctx.routine)),
@@ -1408,6 +1567,9 @@ impl Hist {
                 return;
             }
         };
+        if timing {
+            eprintln!("timing   worker+trace {:?}", t_step.elapsed());
+        }
         if !so.pre_diff.is_empty() {
             // not part of the replay: the worker does it again
             s.line(&format!("pre {}", so.pre_diff.join(",")), "ok");
@@ -1482,13 +1644,14 @@ impl Hist {
         let mut seen: HashSet<u64> = HashSet::new();
         let mut reported: HashSet<String> = HashSet::new();
         // a save with induced failures repeats its (large) writes up to three times: cut them coarser
-        let gran = if script.contains("fsize:") || script.contains("obst:") { if self.thorough { 512 } else { 4096 } } else { self.gran };
-        let mut cs = cuts(&so.trace, gran);
+        let pol = if script.contains("fsize:") || script.contains("obst:") { self.cut.with_gran(if self.thorough { 512 } else { 4096 }) } else { self.cut.clone() };
+        let mut cs = cuts(&so.trace, &pol);
         if !self.thorough && cs.len() > 1500 {
             // quick tier: a save of several large files (64 KiB alignment padding + update section per
             // bucket) is cut every 256 bytes instead of every 64 (first/last bytes of every write stay)
-            cs = cuts(&so.trace, gran.max(256));
+            cs = cuts(&so.trace, &pol.with_gran(pol.gran.max(256)));
         }
+        let old_listing = listing_image(&so.old);
         let mut nstates = 0u64;
         let mut torn_visible = 0u64;
         for (i, k) in &cs {
@@ -1533,7 +1696,7 @@ impl Hist {
                 }
                 let (verdict, bad_objects) = classify(&routine, &got, &old_state, &new_state);
                 s.tally(&format!("{routine}:crash-state-{verdict}"));
-                s.case(Some(&format!("{routine} {script} {} {i} {k} {v}", listing_image(&so.old))));
+                s.case(Some(&format!("{routine} {script} {old_listing} {i} {k} {v}")));
                 if verdict == "neither" {
                     torn_visible += 1;
                     let sig = self.sig_for(&so, &img, &got, v, script, &bad_objects);
@@ -1546,17 +1709,24 @@ impl Hist {
             }
         }
         s.tally_n(&format!("{routine}:crash-states"), nstates);
+        if timing {
+            eprintln!("timing   {nstates} crash states done at {:?}", t_step.elapsed());
+        }
         let _ = torn_visible;
         // 4. tie the crash-state builder to Spec/Fs: the state at every operation boundary and at
         //    two cuts inside every write
         let mut shown = 0;
         for (i, k) in &cs {
-            let inside_ok = *k == 0 || *k == 1 || matches!(so.trace.get(*i), Some(FsOp::Write { data, .. }) if *k == data.len() - 1);
+            // (the model side copies the written prefix: the last-byte cut of a huge write is left to the crash states)
+            let inside_ok = *k == 0 || *k == 1 || matches!(so.trace.get(*i), Some(FsOp::Write { data, .. }) if *k == data.len() - 1 && data.len() < HUGE_WRITE);
             if inside_ok && shown < 40 {
                 shown += 1;
                 let st = state_at(&old_d, &so.trace, *i, *k);
                 s.line(&format!("state {i} {k}"), &listing_state(&st));
             }
+        }
+        if timing {
+            eprintln!("timing   step done at {:?}", t_step.elapsed());
         }
         self.last = Some(so);
     }
@@ -1644,8 +1814,8 @@ fn gen_key16(r: &mut Rng, same_bucket: bool) -> String {
     hex(&k)
 }
 
-fn pick_resume(r: &mut Rng, t: &[FsOp], gran: usize) -> (usize, usize, &'static str) {
-    let cs = cuts(t, gran);
+fn pick_resume(r: &mut Rng, t: &[FsOp], pol: &CutPolicy) -> (usize, usize, &'static str) {
+    let cs = cuts(t, pol);
     let (i, k) = cs[r.below(cs.len() as u64) as usize];
     let v = *r.pick(&["asis", "trunc", "zeros"]);
     (i, k, v)
@@ -1761,7 +1931,7 @@ fn gen_history(s: &mut Session, r: &mut Rng, routine: &str, thorough: bool, vari
         }
         _ => return,
     }
-    let mut h = Hist { ctx, dir: tempfile::tempdir().expect("tempdir"), replay: vec![], last: None, gran, thorough, dead: false };
+    let mut h = Hist { ctx, dir: tempfile::tempdir().expect("tempdir"), replay: vec![], last: None, cut: CutPolicy::fine(gran), thorough, dead: false };
     h.begin(s);
     let n = scripts.len();
     for (j, sc) in scripts.iter().enumerate() {
@@ -1778,12 +1948,346 @@ fn gen_history(s: &mut Session, r: &mut Rng, routine: &str, thorough: bool, vari
                 let k = if variant_no % 2 == 1 { 3 } else { 7 };
                 h.resume(s, widx, k, "asis");
             } else if !tr.is_empty() && r.chance(1, 3) {
-                let (i, k, v) = pick_resume(r, &tr, gran);
+                let (i, k, v) = pick_resume(r, &tr, &h.cut);
                 h.resume(s, i, k, v);
             }
             // a resumed image that is itself broken ends the history (the failure is already reported)
             if let Some(so) = &h.last {
                 let _ = so;
+            }
+        }
+    }
+}
+
+
+// ---------------------------------------------------------------------------------------------
+// size classes: a save routine that treats objects differently by SIZE (a threshold for "large"
+// values, a buffer that is bypassed, an alignment that adds a section) has a boundary at every size
+// constant of its source. The constants are read from the source files of the save routines
+// (integer literal products / shifts and the named constants made of them), plus the constants of
+// the environment that are not in the source (page size, std's BufWriter, tokio's file buffer).
+// Every constant c gives objects of c-1, c and c+1 bytes (disk cache: the value itself; the other
+// routines: entry counts that put the file just below / above c).
+// ---------------------------------------------------------------------------------------------
+
+fn repo_root() -> PathBuf {
+    PathBuf::from(std::env::var("VERIF_REPO").unwrap_or_else(|_| "/repo".into()))
+}
+
+#[derive(Clone, Debug, PartialEq)]
+enum Tok {
+    Num(u64),
+    Ident(String),
+    Mul,
+    Shl,
+    Other(char),
+}
+
+fn lex_rust(text: &str) -> Vec<Tok> {
+    let b = text.as_bytes();
+    let mut i = 0;
+    let mut out = vec![];
+    while i < b.len() {
+        let c = b[i];
+        if c.is_ascii_whitespace() {
+            i += 1;
+        } else if c == b'/' && b.get(i + 1) == Some(&b'/') {
+            while i < b.len() && b[i] != b'\n' {
+                i += 1;
+            }
+        } else if c == b'/' && b.get(i + 1) == Some(&b'*') {
+            i += 2;
+            while i + 1 < b.len() && !(b[i] == b'*' && b[i + 1] == b'/') {
+                i += 1;
+            }
+            i += 2;
+        } else if c == b'"' {
+            i += 1;
+            while i < b.len() && b[i] != b'"' {
+                if b[i] == b'\\' {
+                    i += 1;
+                }
+                i += 1;
+            }
+            i += 1;
+        } else if c == b'\'' {
+            // char literal ('x', '\n', '\'') or a lifetime ('a)
+            if b.get(i + 1) == Some(&b'\\') {
+                i += 2;
+                while i < b.len() && b[i] != b'\'' {
+                    i += 1;
+                }
+                i += 1;
+            } else if b.get(i + 2) == Some(&b'\'') {
+                i += 3;
+            } else {
+                i += 1;
+            }
+        } else if c.is_ascii_digit() {
+            let start = i;
+            let (radix, mut j) = if c == b'0' && matches!(b.get(i + 1), Some(b'x' | b'X')) {
+                (16, i + 2)
+            } else if c == b'0' && matches!(b.get(i + 1), Some(b'o')) {
+                (8, i + 2)
+            } else if c == b'0' && matches!(b.get(i + 1), Some(b'b')) && matches!(b.get(i + 2), Some(b'0' | b'1' | b'_')) {
+                (2, i + 2)
+            } else {
+                (10, i)
+            };
+            let mut v: Option<u64> = Some(0);
+            let mut digits = 0;
+            while j < b.len() && (b[j] == b'_' || (b[j] as char).is_digit(radix)) {
+                if b[j] != b'_' {
+                    v = v.and_then(|v| v.checked_mul(u64::from(radix))).and_then(|v| v.checked_add(u64::from((b[j] as char).to_digit(radix).unwrap_or(0))));
+                    digits += 1;
+                }
+                j += 1;
+            }
+            // a float: `1.5`, `1e3`, `2f64`
+            let mut float = radix == 10 && j + 1 < b.len() && b[j] == b'.' && b[j + 1].is_ascii_digit();
+            let sfx = j;
+            while j < b.len() && (b[j].is_ascii_alphanumeric() || b[j] == b'_') {
+                j += 1;
+            }
+            let suffix = &text[sfx..j];
+            if radix == 10 && (suffix.starts_with('f') || suffix.starts_with('e') || suffix.starts_with('E')) {
+                float = true;
+            }
+            if float {
+                while j < b.len() && (b[j].is_ascii_alphanumeric() || b[j] == b'_' || b[j] == b'.') {
+                    j += 1;
+                }
+                out.push(Tok::Other('f'));
+            } else if digits > 0 {
+                match v {
+                    Some(v) => out.push(Tok::Num(v)),
+                    None => out.push(Tok::Other('n')),
+                }
+            } else {
+                out.push(Tok::Other('n'));
+            }
+            i = j.max(start + 1);
+        } else if c.is_ascii_alphabetic() || c == b'_' {
+            let start = i;
+            while i < b.len() && (b[i].is_ascii_alphanumeric() || b[i] == b'_') {
+                i += 1;
+            }
+            out.push(Tok::Ident(text[start..i].to_string()));
+        } else if c == b'*' && b.get(i + 1) != Some(&b'=') {
+            out.push(Tok::Mul);
+            i += 1;
+        } else if c == b'<' && b.get(i + 1) == Some(&b'<') && b.get(i + 2) != Some(&b'=') {
+            out.push(Tok::Shl);
+            i += 2;
+        } else {
+            out.push(Tok::Other(c as char));
+            i += 1;
+        }
+    }
+    out
+}
+
+/// value of the product/shift chain that starts at token `i` (factors: literals and the named
+/// constants in `env`; `as T` casts skipped); returns (value, index after the chain)
+fn eval_chain(t: &[Tok], i: usize, env: &BTreeMap<String, u64>) -> Option<(u64, usize)> {
+    let factor = |j: usize| -> Option<u64> {
+        match t.get(j) {
+            Some(Tok::Num(v)) => Some(*v),
+            Some(Tok::Ident(n)) => env.get(n).copied(),
+            _ => None,
+        }
+    };
+    let mut v = factor(i)?;
+    let mut j = i + 1;
+    loop {
+        if matches!(t.get(j), Some(Tok::Ident(a)) if a == "as") && matches!(t.get(j + 1), Some(Tok::Ident(_))) {
+            j += 2;
+            continue;
+        }
+        match (t.get(j), factor(j + 1)) {
+            (Some(Tok::Mul), Some(f)) => {
+                v = v.checked_mul(f)?;
+                j += 2;
+            }
+            (Some(Tok::Shl), Some(f)) => {
+                v = if f < 64 { v.checked_mul(1u64 << f)? } else { return None };
+                j += 2;
+            }
+            _ => break,
+        }
+    }
+    Some((v, j))
+}
+
+/// the size-like constants of a Rust source text (its `#[cfg(test)]` tail dropped)
+fn scan_constants(text: &str) -> Vec<u64> {
+    let text = text.split("#[cfg(test)]").next().unwrap_or("");
+    let t = lex_rust(text);
+    // named constants made of literal chains (two rounds: a constant may use a later one)
+    let mut env: BTreeMap<String, u64> = BTreeMap::new();
+    for _ in 0..2 {
+        for i in 0..t.len() {
+            if !matches!(&t[i], Tok::Ident(k) if k == "const" || k == "static") {
+                continue;
+            }
+            let Some(Tok::Ident(name)) = t.get(i + 1) else { continue };
+            let Some(eq) = (i + 2..(i + 12).min(t.len())).find(|j| t[*j] == Tok::Other('=')) else { continue };
+            if let Some((v, end)) = eval_chain(&t, eq + 1, &env) {
+                if t.get(end) == Some(&Tok::Other(';')) {
+                    env.insert(name.clone(), v);
+                }
+            }
+        }
+    }
+    let mut out = vec![];
+    let mut i = 0;
+    while i < t.len() {
+        let mid_chain = i > 0 && matches!(t[i - 1], Tok::Mul | Tok::Shl);
+        match eval_chain(&t, i, &env) {
+            Some((v, end)) if !mid_chain => {
+                out.push(v);
+                i = end;
+            }
+            _ => i += 1,
+        }
+    }
+    out.sort_unstable();
+    out.dedup();
+    out
+}
+
+/// the size constants for one routine: (constants in [lo, hi], how many came from the source scan)
+fn size_constants(routine: &str, thorough: bool) -> (Vec<usize>, usize) {
+    let (files, fixed, lo, hi): (&[&str], &[usize], usize, usize) = match routine {
+        // fixed: page size, a common block size, 1 MiB
+        "dc" => (&["crates/cascette-cache/src/disk_cache.rs"], &[4096, 65536, 1 << 20], 256, if thorough { 64 << 20 } else { 32 << 20 }),
+        // fixed: std::io::BufWriter's default capacity (larger writes bypass the buffer)
+        "idx" => (&["crates/cascette-client-storage/src/index/mod.rs", "crates/cascette-client-storage/src/index/update.rs"], &[8192], 4096, if thorough { 512 << 10 } else { 64 << 10 }),
+        // fixed: two pages (the second page of a bucket begins), BufWriter's capacity, 64 KiB
+        "res" => (&["crates/cascette-client-storage/src/kmt/key_state.rs"], &[2048, 8192, 65536], 1024, if thorough { 256 << 10 } else { 64 << 10 }),
+        // fixed: page size, 64 KiB, tokio::fs::File's maximal buffer (2 MiB; thorough)
+        "lru" => (&["crates/cascette-client-storage/src/lru/mod.rs", "crates/cascette-client-storage/src/lru/lru_file.rs"], &[4096, 65536, 2 << 20], 256, if thorough { 2 << 20 } else { 64 << 10 }),
+        _ => (&[], &[], 0, 0),
+    };
+    let mut v: Vec<usize> = fixed.iter().copied().filter(|c| *c >= lo && *c <= hi).collect();
+    let mut scanned = 0;
+    for f in files {
+        if let Ok(text) = std::fs::read_to_string(repo_root().join(f)) {
+            for c in scan_constants(&text) {
+                if let Ok(c) = usize::try_from(c) {
+                    if c >= lo && c <= hi && !v.contains(&c) {
+                        v.push(c);
+                        scanned += 1;
+                    }
+                }
+            }
+        }
+    }
+    v.sort_unstable();
+    (v, scanned)
+}
+
+/// the histories of the size-class family of one routine
+fn gen_size_classes(s: &mut Session, r: &mut Rng, routine: &str, thorough: bool) {
+    let (consts, scanned) = size_constants(routine, thorough);
+    s.tally_n(&format!("{routine}:size-constants-from-source"), scanned as u64);
+    if scanned == 0 {
+        s.tally(&format!("{routine}:size-constants-source-scan-found-nothing"));
+    }
+    // quick tier: the largest constants first, a bounded number of them
+    let keep = if thorough { 12 } else if routine == "dc" { 6 } else { 4 };
+    let chosen: Vec<usize> = consts.iter().rev().take(keep).rev().copied().collect();
+    let cut = CutPolicy { gran: 64, coarse_above: 1024, marks: consts.clone() };
+    let master_seed = r.below(1000);
+    let master_len = consts.iter().copied().max().unwrap_or(0) + 1;
+    for &c in &chosen {
+        // (begin parameters, scripts) of every history for constant c
+        let mut hists: Vec<(Ctx, Vec<String>)> = vec![];
+        let base = Ctx { routine: routine.into(), cap: 4, name: String::new(), sub: 0, universe: vec![] };
+        match routine {
+            "dc" => {
+                let names = ["config", "data.000", "a.b.c", "v1", "build-123.cfg", "cdn.index"];
+                // long values are tails of ONE master stream per run (the model side builds it once)
+                let spec = |len: usize, seed: u64, j: u64| if len >= DC_COMPACT_FROM { format!("{len}t{master_seed}m{master_len}") } else { format!("{len}x{}", seed + j) };
+                let mut mk = |r: &mut Rng, sub: usize, lens: &[usize]| {
+                    let k = (*r.pick(&names)).to_string();
+                    let mut uni = vec![k.clone(), (*r.pick(&names)).to_string()];
+                    uni.sort();
+                    uni.dedup();
+                    let seed = r.below(1000);
+                    let scripts = lens.iter().enumerate().map(|(j, l)| format!("put:{}:{}", hex(k.as_bytes()), spec(*l, seed, j as u64))).collect();
+                    hists.push((Ctx { sub, universe: uni, ..base.clone() }, scripts));
+                };
+                let sub = *r.pick(&[0usize, 0, 1, 2]);
+                if c >= HUGE_WRITE && !thorough {
+                    // every crash state of a put that replaces a huge value costs two huge files:
+                    // the quick tier replaces a small value by c bytes and puts c-1 and c+1 on their own
+                    mk(r, sub, &[100, c]);
+                    mk(r, 0, &[c - 1]);
+                    mk(r, 2, &[c + 1]);
+                } else {
+                    mk(r, sub, &[c - 1, c, c + 1]);
+                }
+                if thorough {
+                    mk(r, 2, &[100, c]);
+                    mk(r, 0, &[c + 1, c - 1]);
+                }
+            }
+            "idx" => {
+                // sorted section: 0x28 bytes of header blocks + 18 bytes per entry
+                let n_lo = c.saturating_sub(0x28) / 18;
+                let sd = r.below(1000);
+                let add = |r: &mut Rng| format!("add:{}:{}:{}:{}", gen_key16(r, true), r.below(1024), r.below(1 << 30), r.range(1, 1 << 20));
+                // just below c; one more entry: just above c; then a pending update (alignment padding + update section)
+                hists.push((base.clone(), vec![format!("bulk:{sd}:{n_lo},flush"), format!("{},flush", add(r)), add(r)]));
+                if thorough {
+                    hists.push((base.clone(), vec![format!("bulk:{sd}:{},flush", n_lo + 1), add(r), format!("{},flush", add(r))]));
+                }
+            }
+            "res" => {
+                // one bucket: 5 bytes of bucket header + 1024 bytes per page of 25 entries
+                let p_lo = (c.saturating_sub(5).div_ceil(1024)).saturating_sub(1);
+                let n_lo = (25 * p_lo).max(1);
+                let x = r.byte();
+                let name = (*r.pick(&["key_state_v8", "residency.db"])).to_string();
+                let uni: Vec<String> = (0..4).map(|_| hex(&r.bytes(16))).collect();
+                let ctx = Ctx { name, universe: uni.clone(), ..base.clone() };
+                let (s1, s2) = (r.below(1000), 1000 + r.below(1000));
+                // p_lo full pages (just below c); one more entry in the bucket: a new page (just above c)
+                hists.push((ctx.clone(), vec![format!("fill:{s1}:{n_lo}:{x:02x}"), format!("fill:{s2}:1:{x:02x}")]));
+                if thorough {
+                    hists.push((ctx, vec![format!("fill:{s1}:{}:{x:02x}", n_lo + 1), format!("unset:{}", uni[0]), format!("fill:{s2}:30:{x:02x}")]));
+                }
+            }
+            "lru" => {
+                // 0x1C bytes of header + 0x14 bytes per slot of the table (all `capacity` slots are written)
+                let cap_lo = (c.saturating_sub(0x1C) / 0x14).max(1);
+                let keys: Vec<String> = (0..5).map(|_| { let mut k = r.bytes(9); k[0] |= 1; hex(&k) }).collect();
+                let touch = |r: &mut Rng| format!("touch:{}", r.pick(&keys));
+                hists.push((Ctx { cap: cap_lo as u32, ..base.clone() }, vec![format!("{},{},bump", touch(r), touch(r))]));
+                hists.push((Ctx { cap: cap_lo as u32 + 1, ..base.clone() }, vec![format!("{},{},bump", touch(r), touch(r)), format!("cycle,{},bump", touch(r))]));
+            }
+            _ => {}
+        }
+        for (ctx, scripts) in hists {
+            let t0 = std::time::Instant::now();
+            struct T(std::time::Instant, String);
+            impl Drop for T { fn drop(&mut self) { if std::env::var_os("C06_TIMING").is_some() { eprintln!("timing {} {:?}", self.1, self.0.elapsed()); } } }
+            let _t = T(t0, format!("{routine} c={c}"));
+            s.tally(&format!("{routine}:size-class-history c={c}"));
+            let mut h = Hist { ctx, dir: tempfile::tempdir().expect("tempdir"), replay: vec![], last: None, cut: cut.clone(), thorough, dead: false };
+            h.begin(s);
+            for sc in &scripts {
+                h.step(s, sc);
+                if h.dead {
+                    break;
+                }
+                // the size the save actually had, relative to the constant
+                if let Some(so) = &h.last {
+                    let n = so.trace.iter().filter_map(|o| match o { FsOp::Write { data, .. } => Some(data.len()), _ => None }).max().unwrap_or(0);
+                    let side = if n < c { "below" } else if n == c { "at" } else { "above" };
+                    s.tally(&format!("{routine}:size-class-save-{side}-constant"));
+                }
             }
         }
     }
@@ -1804,7 +2308,12 @@ fn replay_file(s: &mut Session, lines: &[String], thorough: bool) {
                     sub: get("sub").parse().unwrap_or(0),
                     universe: if uni == "-" || uni.is_empty() { vec![] } else { uni.split('/').map(str::to_string).collect() },
                 };
-                let mut nh = Hist { ctx, dir: tempfile::tempdir().expect("tempdir"), replay: vec![], last: None, gran: if thorough { 64 } else { 64 }, thorough, dead: false };
+                let mut cut = CutPolicy::fine(64);
+                if let Ok(c) = get("coarse").parse::<usize>() {
+                    cut.coarse_above = c;
+                    cut.marks = get("marks").split(',').filter_map(|m| m.parse().ok()).collect();
+                }
+                let mut nh = Hist { ctx, dir: tempfile::tempdir().expect("tempdir"), replay: vec![], last: None, cut, thorough, dead: false };
                 nh.begin(s);
                 h = Some(nh);
             }
@@ -1841,6 +2350,16 @@ fn main() {
         }
         return;
     }
+    if raw.get(1).map(String::as_str) == Some("--size-constants") {
+        // debugging aid: the size constants the size-class histories are built from
+        for routine in ["idx", "res", "lru", "dc"] {
+            for thorough in [false, true] {
+                let (v, n) = size_constants(routine, thorough);
+                println!("{routine} {}: {v:?} ({n} from the source)", if thorough { "thorough" } else { "quick" });
+            }
+        }
+        return;
+    }
     quiet_panics();
     let args = Args::parse();
     let tracer = init_tracer();
@@ -1860,11 +2379,15 @@ fn main() {
             gen_history(&mut s, &mut r, routine, args.thorough(), v);
         }
     }
+    for routine in ["idx", "res", "lru", "dc"] {
+        gen_size_classes(&mut s, &mut r, routine, args.thorough());
+    }
     finish(s);
 }
 
 fn finish(mut s: Session) {
     s.extra.insert("tracer_crosscheck_runs".into(), serde_json::json!(XCHECK_RUNS.load(std::sync::atomic::Ordering::Relaxed)));
+    s.extra.insert("tracer_crosscheck_skipped_huge_values".into(), serde_json::json!(XCHECK_SKIPPED.load(std::sync::atomic::Ordering::Relaxed)));
     let diffs = XCHECK_DIFFS.lock().map(|v| v.clone()).unwrap_or_default();
     s.extra.insert("tracer_crosscheck_differences".into(), serde_json::json!(diffs.len()));
     if !diffs.is_empty() {
